@@ -687,6 +687,12 @@ func genVals(t *rapid.T, n int, enc string, forceRuns bool) ([]Hex, string) {
 			if id%13 == 0 {
 				l = 255 + int(id%50)
 			}
+			if id%97 == 5 {
+				l = 1000 + int(id%4000) // a few long values
+			}
+			if id%1009 == 7 {
+				l = 65535 - len(fmt.Sprintf("%x", id)) // the longest value String16 can hold
+			}
 			return Hex(strings.Repeat(string([]byte{byte(id)}), l) + fmt.Sprintf("%x", id))
 		case s.name == "Dummy":
 			return Hex(leBytes(id, 4))
